@@ -35,7 +35,7 @@ func RunC02(c *core.Ctx) {
 		"wrong / missing / mistyped claims, unused registered algorithm, short signature) followed by 66/68/70 in plaintext, under self-chosen keys " +
 		"and under the keys the attacker derived himself; later TO2 messages with no ProveDevice at all; all key types, key exchanges and cipher suites.")
 	cfgs := srvConfigs(c)
-	tun := []string{"", "plaintext", "wrong-keys", "bitflip", "enc-garbage"}
+	tun := []string{"", "plaintext", "wrong-keys", "zero-keys", "bitflip", "enc-garbage"}
 	for _, cf := range cfgs {
 		if _, err := srvEnv(cf.spec); err != nil {
 			c.Note("env %s: %v", cf.spec.Name, err)
@@ -145,6 +145,12 @@ func RunC06(c *core.Ctx) {
 		// TO0 with the token of a session of another protocol, and with no Hello at all
 		for _, start := range []int{10, 30, 60} {
 			emit([]hstep{{Msg: start, Sess: 0, Tok: 's', From: -1}, {Msg: 20, Sess: 1, Tok: 's', From: -1}, {Msg: 22, Sess: 0, Tok: 's', From: 1}}, "ownersign-in-foreign-session")
+		}
+		// a voucher that has moved on to a second owner: every fault again, in particular a blob signed by the FORMER owner
+		for _, f := range append([]string{""}, raw.Faults(22)...) {
+			h := seqSteps(honestSeq["TO0"], 0)
+			h[1].Fault = f
+			doHist(c, cf, h, "two-entry-voucher", core.Params{"chain2": "1"})
 		}
 		for _, ttl := range []int{0, 1, 60, 3600, 86400, 1 << 31} {
 			for _, f := range []string{"", "ttl-zero"} {
@@ -478,7 +484,7 @@ func runC05Protocol(c *core.Ctx) {
 		}
 		run(seqSteps(msgs, 0), "honest:TO2")
 		for i := 3; i < len(msgs); i++ {
-			for _, f := range []string{"plaintext", "wrong-keys", "bitflip", "enc-garbage", "enc-truncated", "garbage", "empty"} {
+			for _, f := range []string{"plaintext", "wrong-keys", "zero-keys", "bitflip", "enc-garbage", "enc-truncated", "garbage", "empty"} {
 				h := append(seqSteps(msgs[:i+1], 0), seqSteps(msgs[i:], 0)...) // the faulty message, then the honest one and the rest
 				h[i].Fault = f
 				run(h, "tunnel-fault-then-honest-retry")
